@@ -133,7 +133,8 @@ func (t *PatternType) IsAssignable(o px.Type, g px.Guard) bool {
 			return true
 		}
 		enums := et.values
-		return len(enums) > 0 && utils.MatchesAllStrings(MapToRegexps(t.regexps), enums)
+		// a case insensitive Enum also accepts the other spellings of its values
+		return len(enums) > 0 && !et.caseInsensitive && utils.MatchesAllStrings(MapToRegexps(t.regexps), enums)
 	}
 	return false
 }
